@@ -73,12 +73,30 @@ Theorem C03_pattern_path_eq_rowwise :
 Proof. exact pattern_path_eq_rowwise. Qed.
 Print Assumptions C03_pattern_path_eq_rowwise.
 
-(* comparisons sharing a column with the training blocking rule are not trained ... *)
+(* comparisons sharing a column with the training blocking rule are not trained: position by
+   position through a whole session.  A deactivated comparison keeps its lists of estimates; an
+   active one, the a-th active (a = number of active comparisons before position k), gets for
+   every level exactly the m (u) of the same-valued level of the a-th comparison of the final EM
+   iterate appended (nothing when the session fixes m (u)). *)
 Theorem C03_trained_only_active :
-  forall nl nb br m,
-    cmps (start_params nl nb br m)
-    = map (fun c => map ml_lv (mc_levels c)) (filter (fun c => negb (deactivated br c)) (md_cmps m)).
-Proof. exact trained_only_active. Qed.
+  forall nl nb fl conv n br data m k c,
+    nth_error (md_cmps m) k = Some c ->
+    let start := start_params nl nb br m in
+    let final := last (em_history fl conv n start data) start in
+    exists c', nth_error (md_cmps (session nl nb fl conv n br data m)) k = Some c' /\
+      (deactivated br c = true ->
+         map ml_tm (mc_levels c') = map ml_tm (mc_levels c) /\
+         map ml_tu (mc_levels c') = map ml_tu (mc_levels c)) /\
+      (deactivated br c = false ->
+         exists f, nth_error (cmps final)
+                             (length (filter (fun c => negb (deactivated br c)) (firstn k (md_cmps m)))) = Some f /\
+           length (mc_levels c') = length (mc_levels c) /\
+           forall j l, nth_error (mc_levels c) j = Some l ->
+             exists fj l', nth_error f j = Some fj /\ nth_error (mc_levels c') j = Some l' /\
+               lv_val fj = lv_val (ml_lv l) /\
+               ml_tm l' = (if fix_m fl then ml_tm l else ml_tm l ++ [lv_m fj]) /\
+               ml_tu l' = (if fix_u fl then ml_tu l else ml_tu l ++ [lv_u fj])).
+Proof. exact session_appends_final_values. Qed.
 Print Assumptions C03_trained_only_active.
 
 (* ... and come out of the session as they went in: no estimate appended; values = populate,
@@ -299,3 +317,137 @@ Example C03_example_relabel_and_shuffle :
   em_step demo_fl demo_p2 demo_shuffled2 = em_step demo_fl demo_p2 demo_data2 /\
   map (map lv_m) (cmps (em_step demo_fl demo_p2 demo_data2)) <> map (map lv_m) (cmps demo_p2).
 Proof. vm_compute. repeat split. discriminate. Qed.
+
+(* ------------------------------------------------------------------------------------ *)
+(* Audit additions                                                                       *)
+(* ------------------------------------------------------------------------------------ *)
+
+(* the E-step is Bayes' rule on the mixture density (no term-frequency adjustments) *)
+Theorem C03_estep_is_bayes_posterior :
+  forall p g tf, no_tf p -> levels_pos p -> lam_ok p ->
+    posterior p g tf == lam p * prodM (cmps p) g / mixQ p g.
+Proof. exact posterior_closed. Qed.
+Print Assumptions C03_estep_is_bayes_posterior.
+
+(* the value the M-step writes for an observed, non-fixed level is a genuine quotient.  With a
+   zero denominator both sides would still agree through x / 0 = 0 in Q, whereas the SQL engines
+   yield NULL / NaN there: that case is excluded by hypothesis *)
+Theorem C03_mstep_reference_nonzero :
+  forall fl p sc i c k l,
+    nth_error (cmps p) i = Some c -> nth_error c k = Some l ->
+    lv_val l <> (-1)%Z -> observed i (lv_val l) sc = true ->
+    exists c' l', nth_error (cmps (mstep fl p sc)) i = Some c' /\ nth_error c' k = Some l' /\
+      lv_val l' = lv_val l /\
+      (fix_m fl = false -> lv_fixm l = false -> ~ sumQ mterm (nonnull i sc) == 0 ->
+       rd (lv_m l') == sumQ mterm (rows_at i (lv_val l) sc) / sumQ mterm (nonnull i sc)) /\
+      (fix_u fl = false -> lv_fixu l = false -> ~ sumQ uterm (nonnull i sc) == 0 ->
+       rd (lv_u l') == sumQ uterm (rows_at i (lv_val l) sc) / sumQ uterm (nonnull i sc)).
+Proof. exact mstep_reference_nonzero. Qed.
+Print Assumptions C03_mstep_reference_nonzero.
+
+(* for ANY positive well-formed start (no sub-normalisation assumed) one unfixed step
+   establishes all hypotheses of the likelihood theorem, so the log-likelihood is monotone from
+   iterate 1 on *)
+Theorem C03_likelihood_monotone_from_iterate_1 :
+  forall fl conv fuel p data,
+    no_tf p -> no_level_fix p -> cmps_wf p -> levels_pos p -> lam_ok p -> data_ok p data ->
+    fix_m fl = false -> fix_u fl = false ->
+    em_inv (em_step fl p data) data /\
+    mono_chain data (em_history fl conv fuel (em_step fl p data) data).
+Proof.
+  intros fl conv fuel p data H1 H2 H3 H4 H5 H6 Fm Fu.
+  assert (Hpre : em_pre p data) by exact (conj H1 (conj H2 (conj H3 (conj H4 (conj H5 H6))))).
+  split; [exact (one_step_subnormal fl p data Hpre Fm Fu)|exact (monotone_from_iterate_1 fl conv fuel p data Hpre Fm Fu)].
+Qed.
+Print Assumptions C03_likelihood_monotone_from_iterate_1.
+
+(* the exact-match levels the training blocking rule implies (levels_for_rule): an independent,
+   set-based specification of the greedy selection.  rule_selection keeps the column sets of the
+   selected levels; cols_disjoint a b: no column of a is a column of b. *)
+Theorem C03_prior_levels_sound :
+  forall nl nb br m,
+    map snd (rule_selection nl nb br m) = levels_for_rule nl nb br m /\
+    subseq (rule_selection nl nb br m) (ssort (exact_cands m nl)) /\
+    (forall a, In a (rule_selection nl nb br m) ->
+       In a (exact_cands m nl) /\ ssubset (fst a) (map nb br) = true) /\
+    ForallOrdPairs cols_disjoint (rule_selection nl nb br m).
+Proof. exact levels_for_rule_sound. Qed.
+Print Assumptions C03_prior_levels_sound.
+
+Theorem C03_prior_levels_complete :
+  forall nl nb br m,
+    (forall pre post ec x,
+       ssort (exact_cands m nl) = pre ++ (ec, x) :: post ->
+       ssubset ec (map nb br) = true ->
+       (forall a, In a (greedy_pairs pre (map nb br)) -> forall s, In s ec -> ~ In s (fst a)) ->
+       In x (levels_for_rule nl nb br m)) /\
+    (forall c x, In ([c], x) (exact_cands m nl) -> In c (map nb br) ->
+       exists a, In a (rule_selection nl nb br m) /\ In c (fst a)).
+Proof. exact levels_for_rule_complete. Qed.
+Print Assumptions C03_prior_levels_complete.
+
+Theorem C03_prior_prefers_multi_column :
+  forall nl m,
+    Permutation (ssort (exact_cands m nl)) (exact_cands m nl) /\
+    Sorted.StronglySorted (fun a b => (length (fst b) <= length (fst a))%nat) (ssort (exact_cands m nl)).
+Proof. exact levels_for_rule_prefers_larger. Qed.
+Print Assumptions C03_prior_prefers_multi_column.
+
+(* the sort is stable, as Python's list.sort: candidates with equally many columns keep their order *)
+Example C03_example_ssort_ties :
+  ssort [(["a"%string], 1%nat); (["b"%string], 2%nat); (["c"%string; "d"%string], 3%nat); (["e"%string], 4%nat)]
+  = [(["c"%string; "d"%string], 3%nat); (["a"%string], 1%nat); (["b"%string], 2%nat); (["e"%string], 4%nat)].
+Proof. vm_compute. reflexivity. Qed.
+
+(* a richer witness: two comparisons, a null gamma in each, a never-observed level (value 1 of
+   comparison 0); it satisfies every hypothesis of the likelihood theorems and of the
+   sums-to-one theorems *)
+Definition wit_level (v : Z) (m u : Q) : level :=
+  {| lv_val := v; lv_m := Val m; lv_u := Val u; lv_fixm := false; lv_fixu := false; lv_tfu := None |}.
+Definition wit_p : params :=
+  {| lam := 1 # 10;
+     cmps := [ [wit_level 2 (6 # 10) (1 # 10); wit_level 1 (1 # 10) (1 # 10); wit_level 0 (3 # 10) (8 # 10)];
+               [wit_level 1 (7 # 10) (2 # 10); wit_level 0 (3 # 10) (8 # 10)] ] |}.
+Definition wit_data : list drow :=
+  [ ([2; 1]%Z, 1, []); ([0; 0]%Z, 3, []); ([-1; 1]%Z, 2, []); ([2; 0]%Z, 1, []); ([0; -1]%Z, 1, []) ].
+Definition wit_fl : flags := {| fix_m := false; fix_u := false; fix_lam := false |}.
+
+Example C03_example_rich_witness :
+  em_inv wit_p wit_data /\
+  cmp_covers 0 (estep wit_p wit_data) (nth 0 (cmps wit_p) []) /\
+  cmp_covers 1 (estep wit_p wit_data) (nth 1 (cmps wit_p) []) /\
+  ~ sumQ mterm (nonnull 0 (estep wit_p wit_data)) == 0 /\
+  ~ sumQ uterm (nonnull 0 (estep wit_p wit_data)) == 0 /\
+  observed 0 1 (estep wit_p wit_data) = false /\
+  sumQ (fun l => pnum (new_m wit_fl (props_tbl 0 (estep wit_p wit_data)) l)) (nth 0 (cmps wit_p) []) == 1.
+Proof.
+  assert (Hcov0 : cmp_covers 0 (estep wit_p wit_data) (nth 0 (cmps wit_p) [])).
+  { split; [repeat constructor; cbn; intuition discriminate|]. split; [cbn; intuition discriminate|].
+    intros r Hr. apply in_map_iff in Hr as (d & <- & Hd). cbn in Hd.
+    repeat (destruct Hd as [<-|Hd]; [vm_compute; tauto|]). destruct Hd. }
+  assert (Hcov1 : cmp_covers 1 (estep wit_p wit_data) (nth 1 (cmps wit_p) [])).
+  { split; [repeat constructor; cbn; intuition discriminate|]. split; [cbn; intuition discriminate|].
+    intros r Hr. apply in_map_iff in Hr as (d & <- & Hd). cbn in Hd.
+    repeat (destruct Hd as [<-|Hd]; [vm_compute; tauto|]). destruct Hd. }
+  assert (Hnz : ~ sumQ mterm (nonnull 0 (estep wit_p wit_data)) == 0) by (vm_compute; discriminate).
+  split; [|split; [exact Hcov0|split; [exact Hcov1|split; [exact Hnz|split; [vm_compute; discriminate|split; [reflexivity|]]]]]].
+  - split; [|split; [|split; [|split; [|split; [|split]]]]].
+    + intros c l Hc Hl. cbn in Hc. destruct Hc as [<-|[<-|[]]]; cbn in Hl;
+        repeat (destruct Hl as [<-|Hl]; [reflexivity|]); destruct Hl.
+    + intros c l Hc Hl. cbn in Hc. destruct Hc as [<-|[<-|[]]]; cbn in Hl;
+        repeat (destruct Hl as [<-|Hl]; [split; reflexivity|]); destruct Hl.
+    + intros c Hc. cbn in Hc. destruct Hc as [<-|[<-|[]]];
+        (split; [repeat constructor; cbn; intuition discriminate|cbn; intuition discriminate]).
+    + intros c l Hc Hl. cbn in Hc. destruct Hc as [<-|[<-|[]]]; cbn in Hl;
+        repeat (destruct Hl as [<-|Hl]; [split; reflexivity|]); destruct Hl.
+    + split; reflexivity.
+    + split; [discriminate|]. intros r Hr. cbn in Hr.
+      repeat (destruct Hr as [<-|Hr];
+              [split; [reflexivity|]; intros i c Hi; destruct i as [|[|i]];
+               [inversion Hi; subst; cbn; tauto|inversion Hi; subst; cbn; tauto|destruct i; discriminate]|]).
+      destruct Hr.
+    + intros i c Hi. destruct i as [|[|i]]; [| |destruct i; discriminate];
+        inversion Hi; subst; split; vm_compute; discriminate.
+  - apply (m_sums_to_one wit_fl 0 (estep wit_p wit_data)); [exact Hcov0|reflexivity| |exact Hnz].
+    intros l Hl. cbn in Hl. repeat (destruct Hl as [<-|Hl]; [reflexivity|]). destruct Hl.
+Qed.
